@@ -2,6 +2,7 @@ package ischema
 
 import (
 	"fmt"
+	"sort"
 
 	"github.com/jsightapi/jsight-schema-core/bytes"
 	"github.com/jsightapi/jsight-schema-core/errs"
@@ -22,6 +23,17 @@ func New() ISchema {
 
 func (s ISchema) TypesList() map[string]Type {
 	return s.types
+}
+
+// TypeNames returns the names of all types in a stable (sorted) order, so that
+// whatever is done per type does not depend on map iteration order.
+func (s ISchema) TypeNames() []string {
+	names := make([]string, 0, len(s.types))
+	for n := range s.types {
+		names = append(names, n)
+	}
+	sort.Strings(names)
+	return names
 }
 
 // MustType returns *ISchema or panic if not found.
